@@ -10,6 +10,7 @@ import (
 
 	"verif/internal/kinds"
 	"verif/internal/load"
+	"verif/internal/norm"
 	"verif/internal/paths"
 	"verif/internal/report"
 )
@@ -33,6 +34,7 @@ func PrintHelpersIn(p *load.Program, tb *kinds.Table, rel string) *report.RuleRe
 		return res
 	}
 	res.Count("helpers", 5+len(roles.selectors))
+	im.UseNorm(im.printKeep(roles), norm.Options{})
 	emit := func(name, role, why string) {
 		fd := im.Methods[name]
 		if why == "" {
@@ -69,10 +71,11 @@ func (im *Impl) callOf(s ast.Stmt) *ast.CallExpr {
 // checkPrintList: for _, x := range list { printNode(x) }  (or nil-guarded Accept)
 func (im *Impl) checkPrintList(fd *ast.FuncDecl, roles *printRoles) string {
 	recv, list := im.recvObj(fd), im.paramObj(fd, 0)
-	if len(fd.Body.List) != 1 {
+	body := im.Body(fd)
+	if len(body.List) != 1 {
 		return "body is not a single loop over the list"
 	}
-	rs, ok := fd.Body.List[0].(*ast.RangeStmt)
+	rs, ok := body.List[0].(*ast.RangeStmt)
 	if !ok || !im.isObj(rs.X, list) || rs.Value == nil || len(rs.Body.List) != 1 {
 		return "body is not `for _, x := range list { printNode(x) }`"
 	}
@@ -94,7 +97,7 @@ func (im *Impl) checkPrintList(fd *ast.FuncDecl, roles *printRoles) string {
 
 func (im *Impl) checkPrintToken(fd *ast.FuncDecl, roles *printRoles) string {
 	recv, t, def := im.recvObj(fd), im.paramObj(fd, 0), im.paramObj(fd, 1)
-	ps, err := paths.Enumerate(fd.Body)
+	ps, err := paths.Enumerate(im.Body(fd))
 	if err != nil {
 		return "undecidable body: " + err.Error()
 	}
@@ -210,10 +213,11 @@ func (im *Impl) learnNil(cond ast.Expr, truth bool, name func(ast.Expr) (string,
 
 func (im *Impl) checkSepList(fd *ast.FuncDecl, roles *printRoles) string {
 	recv, list, seps, def := im.recvObj(fd), im.paramObj(fd, 0), im.paramObj(fd, 1), im.paramObj(fd, 2)
-	if len(fd.Body.List) != 1 {
+	body := im.Body(fd)
+	if len(body.List) != 1 {
 		return "body is not a single loop over the list"
 	}
-	rs, ok := fd.Body.List[0].(*ast.RangeStmt)
+	rs, ok := body.List[0].(*ast.RangeStmt)
 	if !ok || !im.isObj(rs.X, list) || rs.Value == nil || rs.Key == nil {
 		return "body is not `for k, x := range list {…}`"
 	}
@@ -335,7 +339,7 @@ func (im *Impl) checkSepList(fd *ast.FuncDecl, roles *printRoles) string {
 // print-inserts).
 func (im *Impl) checkWrite(fd *ast.FuncDecl) string {
 	b := im.paramObj(fd, 0)
-	ps, err := paths.Enumerate(fd.Body)
+	ps, err := paths.Enumerate(im.Body(fd))
 	if err != nil {
 		return "undecidable body: " + err.Error()
 	}
@@ -402,7 +406,7 @@ func (im *Impl) checkSelector(fd *ast.FuncDecl) string {
 		params[im.paramObj(fd, i)] = true
 	}
 	first := im.paramObj(fd, 0)
-	ps, err := paths.Enumerate(fd.Body)
+	ps, err := paths.Enumerate(im.Body(fd))
 	if err != nil {
 		return "undecidable body: " + err.Error()
 	}
